@@ -7,11 +7,13 @@ CONSTANTS
   Shapes <- S_wmL
   Ctl <- C_pingS_ping_close
   Closer = FALSE
+  Rd <- R_none
   ControlTakesLock = TRUE
   FlushAtomic = TRUE
   LatchChecked = TRUE
   CloseLatches = TRUE
   TimeoutReleases = TRUE
+  HandlerControlPath = TRUE
   Fifo = TRUE
   OnlyBad = TRUE
   Family = "atk_timeout"
